@@ -78,7 +78,7 @@ class Concretizer:
             if isinstance(c, DConc):
                 return {"$dict": [[k, self.val(x, depth + 1)] for k, x in c.entries]}
             if isinstance(c, DMap):
-                return {"$map": self.dmap(c)}
+                return {"$dict": self.dmap(c, v.ref)}
             return {"$dict": []}
         if t == "set":
             c = self.heap.data.get((v.ref, "$"))
@@ -110,10 +110,22 @@ class Concretizer:
             out.append(self.val(from_term(c.term[i], c.elem)))
         return out
 
-    def dmap(self, c):
-        # enumerate keys that appear as constants in the model interpretation is not generally possible;
-        # report the array interpretations as text
-        return {"arr": str(self.ev(c.arr))[:400], "dom": str(self.ev(c.dom))[:400]}
+    def dmap(self, c, ref):
+        """entries of an abstract map under the model, for the keys used on the path (+ a small int range)"""
+        keys = []
+        for kt in self.I.dmap_keys.get(ref, []):
+            keys.append(self.ev(kt))
+        if c.kshape is Int:
+            keys.extend(z3.IntVal(i) for i in range(-1, 48))
+        out, seen = [], set()
+        for k in keys:
+            ks = str(k)
+            if ks in seen:
+                continue
+            seen.add(ks)
+            if z3.is_true(self.ev(z3.Select(c.dom, k))):
+                out.append([self.val(from_term(k, c.kshape)), self.val(from_term(z3.Select(c.arr, k), c.vshape))])
+        return out
 
     def obj(self, o, depth):
         if o in self.seen:
